@@ -5,6 +5,7 @@ use tsmodel::{parse, Decl, Env, Ty};
 
 use crate::{Args, Log, TypeEntry};
 
+pub mod docs;
 pub mod exports;
 pub mod fsutil;
 pub mod history;
@@ -24,6 +25,8 @@ pub fn dispatch(args: &Args, reg: &[TypeEntry], log: &mut Log) {
         "C12" => libtypes::c12(args, log),
         "C17" => history::c17(args, reg, log),
         "exports" => exports::exports(args, reg, log),
+        "declinfo" => docs::declinfo(args, reg, log),
+        "docscheck" => docs::docscheck(args, log),
         "dump" => dump(reg, log),
         other => panic!("unknown monitor {other}"),
     }
